@@ -1802,6 +1802,7 @@ void ArrayManager::declare_array(const ASTNode *node) {
         var.type = static_cast<TypeInfo>(TYPE_ARRAY_BASE +
                                          node->array_type_info.base_type);
         var.is_const = node->is_const;
+        var.is_unsigned = node->is_unsigned;
         var.is_assigned = false;
 
         // 全次元のサイズを計算して平坦化された配列を作成
@@ -1863,6 +1864,7 @@ void ArrayManager::declare_array(const ASTNode *node) {
         }
 
         var.is_const = node->is_const;
+        var.is_unsigned = node->is_unsigned;
         var.is_assigned = false;
 
         // サイズを取得（struct配列の場合はarray_size_exprから評価）
